@@ -36,3 +36,14 @@ if labels != ['frozen-write'] or 'FAILED C11.schema-unchanged' not in nat:
     print('frozen-write positive control FAILED:', labels, nat[-200:]); sys.exit(1)
 print('frozen-write positive control ok')
 PY
+# the engine's model of package reflect (used by C14) against descriptions pinned from the real
+# package (harness test TestReflectExpectations keeps the pinned table equal to real reflect)
+./bin/gosym -dir harness -pkg verifh/hval -fn ReflectModelSelfTest -out /tmp/verif_reflect_selftest.json >/dev/null 2>&1 || true
+python3 - <<'PY'
+import json, sys, os
+r = json.load(open('/tmp/verif_reflect_selftest.json'))
+os.remove('/tmp/verif_reflect_selftest.json')
+if r.get('status') != 'ok' or 'H.reflect-model-checked' not in (r.get('covers') or {}):
+    print('reflect model self-test FAILED:', r.get('status'), [v['Label'] for v in r.get('violations') or []], (r.get('error') or '')[:300]); sys.exit(1)
+print('reflect model self-test ok')
+PY
